@@ -37,6 +37,22 @@ class Harness:
                                          build=b, extra=["-I" + self.inc_dir, "-w"])
         self.desc = _slops.describe(self.W)
 
+    # ------------------------------------------------------------------ explicit op lines (by parameter / leaf labels)
+    def line(self, lvl, op, **params):
+        """op line for a generated wrapper; params: Lean input name -> value (fp2 pair / int) or dict leaf-path -> value"""
+        d = [x for x in self.desc if x["op"] == op]
+        if not d:
+            raise KeyError("no generated op %r" % op)
+        inp = d[0]["inputs"]
+
+        def get(lab):
+            name, _, path = lab.partition(".")
+            v = params[name]
+            return v[path] if path else v
+        F = [get(l) for l in inp["F"]]
+        I = [get(l) for l in inp["I"]]
+        return ("gen %x %s %x " % (lvl, op, len(F)) + " ".join("%x %x" % f for f in F) + (" " + " ".join("%x" % i for i in I) if I else "")).strip()
+
     # ------------------------------------------------------------------ input generation
     def rand_fp2(self, rng, p, cls=None):
         c = rng.below(20) if cls is None else cls
